@@ -255,6 +255,16 @@ def main():
     for b in broken:
         print("OBLIGATION-BROKEN: " + b)
 
+    # 1b. source drift: has the code under this property's model changed since the tie was last recorded?
+    try:
+        import fingerprint
+        drifted, drift_note = fingerprint.drift(prop)
+    except Exception as e:  # the detector never raises an alarm by itself
+        drifted, drift_note = [], "drift detector failed (%s: %s)" % (type(e).__name__, e)
+    if drifted:
+        print("note: source drift under the model of %s: %d function(s) changed since the recorded tie (%s): %s"
+              % (prop, len(drifted), drift_note, ", ".join(drifted[:6]) + (" ..." if len(drifted) > 6 else "")))
+
     # 2. known findings
     findings = load_findings(prop)
     active = {}
@@ -290,8 +300,14 @@ def main():
 
     unc = uncovered(ctx)
     searched = False
+    deep_reason = None
     if not unc and (broken or ctx.disagreements):
-        # 4. search for a failing input
+        deep_reason = "tie-broken"
+    elif not unc and drifted and ctx.mode == "normal":
+        deep_reason = "source-drift"
+    if deep_reason:
+        # 4. search for a failing input (after a broken tie), or deeper second pass with a fresh seed (after source drift:
+        #    the code under the model changed, so the tie is re-established on more inputs before the theorems are believed)
         searched = True
         sctx = Ctx(prop, tier, seed + 7919, "search", min(deadline, time.time() + (60 if tier == "quick" else 600)))
         sctx.hints = ctx.disagreements[:20]
@@ -302,6 +318,11 @@ def main():
         ctx.evaluations += sctx.evaluations
         ctx.distinct |= sctx.distinct
         ctx.failures += sctx.failures
+        ctx.traces += sctx.traces
+        ctx.unsupported += sctx.unsupported
+        ctx.disagreements += sctx.disagreements
+        for k_, v_ in sctx.counts.items():
+            ctx.counts["deep:" + k_] = v_
         unc = uncovered(sctx)
 
     wall = time.time() - t0
@@ -349,6 +370,8 @@ def main():
         "oracle_failures": len(ctx.failures),
         "oracle_failures_covered_by_known_findings": len(ctx.failures) - len(unc),
         "search_ran": searched,
+        "deep_pass_reason": deep_reason,
+        "source_drift": {"changed_functions": drifted[:40], "n_changed": len(drifted), "note": drift_note},
         "exhaustive": bool(ctx.exhaustive),
         "explanation": getattr(mod, "EXPLANATION", "machine-checked theorems about the Lean model + correspondence run tying the model to /repo"),
         "notes": ctx.notes + log[-5:],
